@@ -5,6 +5,8 @@ import (
 	"context"
 	"errors"
 	"io"
+	"runtime"
+	"sync/atomic"
 
 	astits "github.com/asticode/go-astits"
 )
@@ -22,11 +24,21 @@ type chunkReader struct {
 	reads  int
 	// eofWithData: the Read that hands out the last byte also returns io.EOF (allowed by the io.Reader contract)
 	eofWithData bool
+	faultErr    error // what a failing Read returns (nil: errInjected)
 }
+
+// yieldInRead makes every Read give way to other goroutines first (C16: instances interleaved between two reads)
+var yieldInRead atomic.Bool
 
 func (c *chunkReader) Read(p []byte) (int, error) {
 	c.reads++
+	if yieldInRead.Load() {
+		runtime.Gosched()
+	}
 	if c.fault >= 0 && c.pos >= c.fault {
+		if c.faultErr != nil {
+			return 0, c.faultErr
+		}
 		return 0, errInjected
 	}
 	if c.pos >= len(c.data) {
@@ -77,6 +89,10 @@ type scenario struct {
 	prsSpec  Tok
 	data     []byte
 	ops      []int
+	// bufSize: size of the bufio.Reader of kind 2 (0 = default 4096). Not part of the model: for every size that can
+	// hold what the Demuxer peeks (193 bytes with auto-detection, nothing with an explicit packet size) the bytes
+	// delivered are the same.
+	bufSize int
 }
 
 func (s scenario) tok() Tok {
@@ -95,6 +111,9 @@ func (s scenario) tok() Tok {
 	if pr.Kind == 0 {
 		pr = L(I(0))
 	}
+	if s.bufSize > 0 {
+		return L(I(int64(s.kind)), I(int64(s.optSize)), I(int64(s.fault)), L(ch...), sk, pr, B(s.data), L(ops...), I(int64(s.bufSize)))
+	}
 	return L(I(int64(s.kind)), I(int64(s.optSize)), I(int64(s.fault)), L(ch...), sk, pr, B(s.data), L(ops...))
 }
 
@@ -106,6 +125,9 @@ func scenarioOf(c Tok) scenario {
 	}
 	for _, t := range c.At(7).L {
 		s.ops = append(s.ops, int(t.Int()))
+	}
+	if len(c.L) > 8 {
+		s.bufSize = int(c.At(8).Int())
 	}
 	return s
 }
@@ -145,14 +167,26 @@ type demuxRun struct {
 
 func runScenario(s scenario) *demuxRun {
 	out := &demuxRun{}
-	cr := &chunkReader{data: s.data, chunks: s.chunks, fault: s.fault, eofWithData: s.kind >= 10}
+	// kind = reader kind + 10 * (EOF together with the last bytes) + 20 * (0 plain injected fault, 1 a fault wrapping
+	// io.EOF, 2 a fault wrapping io.ErrUnexpectedEOF)
+	cr := &chunkReader{data: s.data, chunks: s.chunks, fault: s.fault, eofWithData: (s.kind/10)%2 == 1}
+	switch s.kind / 20 {
+	case 1:
+		cr.faultErr = &injectedWrapping{io.EOF}
+	case 2:
+		cr.faultErr = &injectedWrapping{io.ErrUnexpectedEOF}
+	}
 	var rd io.Reader
 	var br *bufio.Reader
 	switch s.kind % 10 {
 	case 1:
 		rd = seekReader{cr}
 	case 2:
-		br = bufio.NewReader(cr)
+		if s.bufSize > 0 {
+			br = bufio.NewReaderSize(cr, s.bufSize)
+		} else {
+			br = bufio.NewReader(cr)
+		}
 		rd = br
 	default:
 		rd = struct{ io.Reader }{cr}
